@@ -24,7 +24,7 @@ def build(spec):
     return fam, bdf, rdf
 
 
-def digest_fit(spec, fam, bdf, rdf, reuse=None):
+def digest_fit(spec, fam, bdf, rdf, reuse=None, later=None):
     from vf import instrument as I
     inp = I.digest(bdf) + I.digest(rdf)
     data = fam.baseline_data(bdf.copy(deep=True))
@@ -35,6 +35,15 @@ def digest_fit(spec, fam, bdf, rdf, reuse=None):
         fam.predict(m, fam.reporting_data(reuse[1].copy(deep=True)))
     try:
         m = fam.fit(m, data)
+        if later is not None:
+            # the fitted model is kept while other meters of the family are fitted and used (a batch fitted first and dumped afterwards):
+            # what is serialised and predicted later is still this fit
+            for b2, r2 in later:
+                try:
+                    m2 = fam.fit(fam.new_model(seed=spec["mseed"] + 1), fam.baseline_data(b2.copy(deep=True)))
+                    fam.predict(m2, fam.reporting_data(r2.copy(deep=True)))
+                except Exception:
+                    pass
         js = m.to_json()
         p = fam.predict(m, fam.reporting_data(rdf.copy(deep=True)))
         pb = fam.predict(m, data) if fam.kind != "caltrack" else p
@@ -93,6 +102,14 @@ def main():
                 s2 = dict(spec, n=spec["n"] + 1000 + item)
                 f2, b2, r2 = build(s2)
                 digest_fit(s2, f2, b2, r2)
+    elif ctx.get("serialise_later"):
+        later = []
+        for k in range(2):
+            f2, b2, r2 = build(dict(spec, n=spec["n"] + 7000 + k))
+            if "observed" in b2.columns:
+                b2["observed"] = b2["observed"] * (1.7 + k) + 2.0
+            later.append((b2, r2))
+        out.append(digest_fit(spec, fam, bdf, rdf, later=later))
     elif ctx.get("reuse_model_object"):
         s2 = dict(spec, n=spec["n"] + 5000)
         f2, b2, r2 = build(s2)
